@@ -100,7 +100,36 @@ func (c *canonizer) node(n ast.Node) {
 			c.b.WriteString(x.Value + " (")
 			return true
 		case *ast.BinaryExpr:
+			// `a > b` is rendered as `b < a`: a mirrored comparison is the same test
+			if x.Op == token.GTR || x.Op == token.GEQ {
+				op := "<"
+				if x.Op == token.GEQ {
+					op = "<="
+				}
+				c.b.WriteString("bin" + op + " (")
+				c.node(x.Y)
+				c.node(x.X)
+				c.b.WriteString(") ")
+				return false
+			}
 			c.b.WriteString("bin" + x.Op.String() + " (")
+			return true
+		case *ast.IfStmt:
+			// `if !c { A } else { B }` is rendered as `if c { B } else { A }`
+			if u, ok := ast.Unparen(x.Cond).(*ast.UnaryExpr); ok && u.Op == token.NOT && x.Else != nil {
+				if eb, ok := x.Else.(*ast.BlockStmt); ok {
+					c.b.WriteString("IfStmt (")
+					if x.Init != nil {
+						c.node(x.Init)
+					}
+					c.node(u.X)
+					c.node(eb)
+					c.node(x.Body)
+					c.b.WriteString(") ")
+					return false
+				}
+			}
+			c.b.WriteString("IfStmt (")
 			return true
 		case *ast.UnaryExpr:
 			c.b.WriteString("un" + x.Op.String() + " (")
